@@ -37,7 +37,7 @@ def store_cfg(sub, memcap, compactn, comps, flags=None):
     open(os.path.join(sub, "StoreT_run.cfg"), "w").write(txt)
 
 
-def run_store(rep, work, d, exe, prop, tier, label, idx, n, memcap=1, compactn=2, comps="vtm", steps=24, density=0.5, images=0.0, damage=False, seed=0, vec="flat", bulk=0,
+def run_store(rep, work, d, exe, prop, tier, label, idx, n, memcap=1, compactn=2, comps="vtm", steps=24, density=0.5, images=0.0, damage=False, seed=0, vec="flat", bulk=0, sched=None,
               allow=("C08-D3-compaction-drops-sources", "C08-D1m-shared-templates")):
     """Runs the store driver, validates the hook-level trace against Store.tla (conformance, exact result sets, explanation ghosts)
     and judges the client-level property monitors (StoreP).  Returns the list of trace events."""
@@ -50,6 +50,10 @@ def run_store(rep, work, d, exe, prop, tier, label, idx, n, memcap=1, compactn=2
         args.append("-damage")
     if bulk:
         args += ["-bulk", bulk]
+    if sched:
+        sp = os.path.join(sub, "sched.jsonl")
+        open(sp, "w").write("\n".join(sched) + "\n")
+        args += ["-sched", sp]
     p = C.run_harness(exe, args, timeout=3000)
     if p.returncode != 0:
         raise C.Inconclusive("store driver failed (%s): %s" % (label, (p.stderr or p.stdout)[-1500:]))
@@ -141,6 +145,24 @@ def run_store(rep, work, d, exe, prop, tier, label, idx, n, memcap=1, compactn=2
         hs = C.split_histories(lines)
         rep.sample(dict(run=label, history=[json.loads(x) for x in hs[len(hs) // 2][1][:14]]))
     return [json.loads(x) for x in lines]
+
+
+def generated_schedules(rep, d, n, memcap=1, compactn=2, comps="vtm", maxlen=40):
+    """(B) TLC (simulation mode) generates schedules of Store.tla with the code's flags: client calls, background job steps and
+    parked searches interleaved; returned as JSON token lists for the driver's -sched mode."""
+    f = dict(FLAGS_REPAIRED)
+    cs = ", ".join('"%s"' % c for c in comps)
+    txt = ("SPECIFICATION GenSpec\nCONSTANTS\n  Docs = {1, 2, 3, 4}\n  MemCap = %d\n  CompactN = %d\n  MaxSeg = 14\n  MaxCrash = 0\n  Comps = {%s}\n"
+           "  ShareMem = %s\n  ShareSeg = %s\n  Merge = %s\n  SwapExcl = %s\n  FlushActive = %s\n  MaxLen = %d\nINVARIANT Emit\nCHECK_DEADLOCK FALSE\n"
+           % (memcap, compactn, cs, f["ShareMem"], f["ShareSeg"], f["Merge"], f["SwapExcl"], f["FlushActive"], maxlen))
+    open(os.path.join(d, "StoreGen_run.cfg"), "w").write(txt)
+    r = C.tlc(d, "StoreGen", "StoreGen_run.cfg", workers=1, simulate="num=%d" % n, depth=600, tlcseed=C.seed(), timeout=1200)
+    lines = sorted({s[6:] for s in r.printed("SCHED ")})
+    if len(lines) < n // 2:
+        raise C.Inconclusive("StoreGen emitted only %d schedules:\n%s" % (len(lines), r.out[-1500:]))
+    rep.model_run("StoreGen simulation num=%d" % n, r, "schedules of Store.tla with the code's flags (4 documents, %d-document memtables, compaction threshold %d): %d distinct token lists of length %d"
+                  % (memcap, compactn, len(lines), maxlen))
+    return lines
 
 
 def damaged_segments(rep, work, d, exe, prop, tier):
